@@ -146,6 +146,9 @@ type C16Env struct {
 	Tok  int      `json:"tok"`
 	// Spec, if set, supplies everything but the routing fields: status, body, trailer, reset, header metadata, method
 	Spec *RpcSpec `json:"spec,omitempty"`
+	// Bad: the envelope is one the proxy must not forward: "nohdr" = no header at all, "foreign" = a source that is not
+	// the sending connection's name. It is dropped - and must leave the sender's own routing untouched.
+	Bad string `json:"bad,omitempty"`
 }
 
 type C16Case struct {
@@ -211,6 +214,9 @@ func genC16(t *rapid.T) C16Case {
 			sp := genRpcSpec(t, 512, true)
 			e.Spec = &sp
 		}
+		if rapid.IntRange(0, 7).Draw(t, "bad") == 0 {
+			e.Bad = rapid.SampledFrom([]string{"nohdr", "foreign"}).Draw(t, "bad_kind")
+		}
 		c.Envs = append(c.Envs, e)
 	}
 	c.ReattachAt = -1
@@ -240,6 +246,9 @@ func (c C16Case) model() []pxDelivery {
 	}
 	var out []pxDelivery
 	for _, e := range c.Envs {
+		if e.Bad != "" {
+			continue // never forwarded
+		}
 		dst := e.To
 		switch c.Rewrite {
 		case "alias":
@@ -274,6 +283,17 @@ func (c C16Case) model() []pxDelivery {
 }
 
 func c16Build(e C16Env) *kit.Rpc {
+	if e.Bad != "" {
+		good := e
+		good.Bad = ""
+		r := c16Build(good)
+		if e.Bad == "nohdr" {
+			r.Header = nil
+		} else {
+			r.Header.Source = "intruder"
+		}
+		return r
+	}
 	if e.Spec != nil {
 		r := e.Spec.Build()
 		r.Id = uint64(1000 + e.Tok)
@@ -460,13 +480,19 @@ func execC16(t *testing.T, c C16Case) (v Verdict) {
 		}
 		multi[d.to][d.from] = true
 	}
+	nbad := 0
+	for _, e := range c.Envs {
+		if e.Bad != "" {
+			nbad++
+		}
+	}
 	nt := c.Rewrite != "none" || c.PreAtt < c.Servers
 	for _, m := range multi {
 		if len(m) >= 2 {
 			nt = true
 		}
 	}
-	v.Info = kit.CaseInfo{Labels: []string{"rewrite=" + c.Rewrite, fmt.Sprintf("dial_on_demand=%v", c.PreAtt < c.Servers), fmt.Sprintf("batch<=%d", c.Batch), fmt.Sprintf("late_dialable=%v", c.LateAt >= 0), fmt.Sprintf("reattach=%v", c.ReattachAt >= 0)}, NonTrivial: nt,
+	v.Info = kit.CaseInfo{Labels: []string{"rewrite=" + c.Rewrite, fmt.Sprintf("dial_on_demand=%v", c.PreAtt < c.Servers), fmt.Sprintf("batch<=%d", c.Batch), fmt.Sprintf("late_dialable=%v", c.LateAt >= 0), fmt.Sprintf("reattach=%v", c.ReattachAt >= 0), fmt.Sprintf("refused_envelopes=%v", nbad > 0)}, NonTrivial: nt,
 		Key: fmt.Sprintf("%+v", c), Sample: map[string]any{"clients": c.Clients, "servers": c.Servers, "pre_attached": c.PreAtt, "rewrite": c.Rewrite, "envelopes": len(c.Envs), "first": c.Envs[0]}}
 	return
 }
